@@ -84,7 +84,11 @@ let () =
   let finish () =
     incr cases;
     let opl = List.rev !ops and outl = List.rev !outs in
-    let model = run propb (List.map toks_of_line opl) in
+    (* a history of C07 written with the blocking-client operations (an op BCONN) is evaluated by the
+       event-loop model of C13: atomicity of EXEC towards clients blocked on its keys *)
+    let is_bconn l = OStr.length l >= 11 && OStr.sub l 0 11 = "b42434f4e4e" in
+    let runner = if prop = "C07" && List.exists is_bconn opl then bytes_of_ascii "C13" else propb in
+    let model = run runner (List.map toks_of_line opl) in
     let model_lines = List.map line_of_toks model in
     if emit then begin
       Printf.printf "CASE %s\n" !cur_id;
